@@ -56,6 +56,11 @@ def canonicalize_url(
         hostname = decode_punycode_hostname(hostname)
         hostname = hostname.lower()
 
+        # NOTE: an ip literal keeps its brackets, whatever it holds ("[v1.x]" has no
+        # colon for unsplit_netloc to recognize it)
+        if "[" in hostinfo:
+            hostname = "[" + hostname + "]"
+
     # Dropping the scheme's default port
     if port is not None and DEFAULT_PORTS.get(scheme) == port:
         port = None
